@@ -5,6 +5,8 @@ package poolsim
 // level 1 (every quiescent point; pool.mu free, no controlled goroutine runnable):
 //   lists/hash index/price index agree, pending ∩ queue = ∅, pending lists have no nonce gap,
 //   pending and total size limits.
+// level 3 (after a "full pass": an empty block + reorg tick, i.e. a reset that promotes every queued account):
+//   additionally the per-account queue limit.
 // level 2 (additionally, when the reorg loop has served every request: after the
 //   extra reorg tick of a "settle" and its quiescence): pending starts at the head
 //   state's nonce and every pending transaction is payable (per transaction, the
@@ -41,7 +43,8 @@ func dumpView(v *core.VerifView, head *blockRec) string {
 	return b.String()
 }
 
-func (h *harness) oracle(after string, strong bool) {
+func (h *harness) oracle(after string, level int) {
+	strong := level >= 2
 	if h.violated() {
 		return
 	}
@@ -53,11 +56,7 @@ func (h *harness) oracle(after string, strong bool) {
 	}
 	head := h.chain.headRec()
 	bad := func(inv, detail string) {
-		lvl := "1"
-		if strong {
-			lvl = "2"
-		}
-		h.fail("invariant", "invariant="+inv+" after="+after, fmt.Sprintf("level-%s oracle after %s: %s\n%s", lvl, after, detail, dumpView(v, head)))
+		h.fail("invariant", "invariant="+inv+" after="+after, fmt.Sprintf("level-%d oracle after %s: %s\n%s", level, after, detail, dumpView(v, head)))
 	}
 	addrs := make([]common.InternalAddress, 0, nAcc)
 	for a := 0; a < nAcc; a++ {
@@ -205,7 +204,7 @@ func (h *harness) oracle(after string, strong bool) {
 					bad("queue-unaffordable", fmt.Sprintf("a%d queued n%d costs %v, balance %v", ai, t.Nonce, t.Cost, st.bal))
 				}
 			}
-			if uint64(len(v.Queue[a])) > v.Config.AccountQueue {
+			if level >= 3 && uint64(len(v.Queue[a])) > v.Config.AccountQueue {
 				bad("queue-account-limit", fmt.Sprintf("a%d holds %d queued > AccountQueue %d", ai, len(v.Queue[a]), v.Config.AccountQueue))
 			}
 			if pn, ok := v.PendingNonce[a]; ok && pn != st.nonce+uint64(len(v.Pending[a])) {
